@@ -119,6 +119,7 @@ def static_rules(repo: Repo, rep: Report) -> None:
             entry = entry.assume(e, True)
         if mod.rel not in summaries_of:
             summaries_of[mod.rel] = G.summarise_module(mod.funcs)
+            G.register_predicates(mod.funcs)
         wrappers = int_wrappers(mod)
         local_dicts: Dict[str, Set[Any]] = {}
         for n in ast.walk(fn):
